@@ -748,6 +748,169 @@ func vC33Scenarios(r *vRand, v uint64) []*vC33Prog {
 	return out
 }
 
+// ---------------------------------------------------------------- cascades of varint branches
+// findBranchSizes shrinks the 3-byte placeholders sweep by sweep until nothing changes.  These
+// layouts need exactly k changing sweeps: k overlapping branches B_1..B_k, the span of B_i
+// contains B_{i+1}, and the distance of every B_i is exactly at a varint boundary (forward
+// 63 | 8191, backward 64 | 8192) once B_{i+1} has its final size, one byte beyond it before.
+// So B_k settles in sweep 1, B_{k-1} in sweep 2, ..., B_1 in sweep k.  m copies in a row make
+// m placeholders shrink per sweep.  Forward layout (the backward one is its mirror image):
+//   B_1 P B_2 Q L_1: R B_3 Q L_2: R ... B_k Q L_{k-1}: R pad L_k:
+type vC33Item struct {
+	ins   *vC33Ins
+	label string   // a label definition (ins == nil)
+	refs  []string // label names referenced by ins (branch: 1, switch: n)
+}
+
+// instructions of exactly n >= 2 bytes in total
+func vC33Pad(r *vRand, v uint64, n int) []vC33Item {
+	ps := OpsByName[v]["pushbytes"]
+	one := func(total int) vC33Item {
+		l := total - 2
+		if total > 129 {
+			l = total - 3
+		}
+		return vC33Item{ins: &vC33Ins{spec: &ps, imms: []vC33Imm{{kind: immBytes, bs: r.Bytes(l)}}}}
+	}
+	var out []vC33Item
+	for n > 0 {
+		switch {
+		case n == 130:
+			out = append(out, one(65), one(65))
+			n = 0
+		case n <= 4003:
+			out = append(out, one(n))
+			n = 0
+		case n-4000 < 2 || n-4000 == 130:
+			out = append(out, one(3900))
+			n -= 3900
+		default:
+			out = append(out, one(4000))
+			n -= 4000
+		}
+	}
+	return out
+}
+
+func vC33Cascade(r *vRand, v uint64, k, m int, big, back, withSwitch bool, slack int) *vC33Prog {
+	bspec := OpsByName[v]["b"]
+	bnz := OpsByName[v]["bnz"]
+	sw := OpsByName[v]["switch"]
+	D, fs := 63, 2 // boundary distance, final size of a chain branch
+	if big {
+		D, fs = 8191, 3
+	}
+	if back {
+		D++
+	}
+	D += slack // slack = 1: one byte beyond the boundary, nothing cascades
+	const q = 10
+	var all []vC33Item
+	for c := 0; c < m; c++ {
+		lab := func(i int) string { return fmt.Sprintf("c%d_%d", c, i) }
+		branch := func(i int) vC33Item {
+			sp := &bspec
+			if r.Intn(3) == 0 {
+				sp = &bnz
+			}
+			return vC33Item{ins: &vC33Ins{spec: sp, imms: []vC33Imm{{kind: immVarintLabel}}}, refs: []string{lab(i)}}
+		}
+		qpad := func() []vC33Item {
+			if withSwitch && r.Intn(2) == 0 { // switch with 4 labels = 10 bytes
+				it := vC33Item{ins: &vC33Ins{spec: &sw, imms: []vC33Imm{{kind: immLabels}}}}
+				for j := 0; j < 4; j++ {
+					it.refs = append(it.refs, lab(1+r.Intn(k)))
+				}
+				return []vC33Item{it}
+			}
+			return vC33Pad(r, v, q)
+		}
+		var seq []vC33Item
+		if k == 1 {
+			seq = append(seq, branch(1))
+			seq = append(seq, vC33Pad(r, v, D)...)
+			seq = append(seq, vC33Item{label: lab(1)})
+		} else {
+			seq = append(seq, branch(1))
+			seq = append(seq, vC33Pad(r, v, D-fs-q)...)
+			seq = append(seq, branch(2))
+			seq = append(seq, qpad()...)
+			seq = append(seq, vC33Item{label: lab(1)})
+			for i := 3; i <= k; i++ {
+				seq = append(seq, vC33Pad(r, v, D-fs-2*q)...)
+				seq = append(seq, branch(i))
+				seq = append(seq, qpad()...)
+				seq = append(seq, vC33Item{label: lab(i - 1)})
+			}
+			// B_k: distance D-5, settles in the first sweep
+			seq = append(seq, vC33Pad(r, v, D-fs-2*q)...)
+			seq = append(seq, vC33Pad(r, v, q+fs-5)...)
+			seq = append(seq, vC33Item{label: lab(k)})
+		}
+		if back {
+			for i, j := 0, len(seq)-1; i < j; i, j = i+1, j-1 {
+				seq[i], seq[j] = seq[j], seq[i]
+			}
+		}
+		all = append(all, seq...)
+	}
+	// labels -> instruction indices
+	p := &vC33Prog{v: v, tt: true, salt: 2, mode: ModeApp}
+	pos := map[string]int{}
+	n := 0
+	for _, it := range all {
+		if it.ins == nil {
+			pos[it.label] = n
+		} else {
+			n++
+		}
+	}
+	for _, it := range all {
+		if it.ins == nil {
+			continue
+		}
+		ins := *it.ins
+		ins.imms = append([]vC33Imm{}, ins.imms...)
+		if len(it.refs) > 0 {
+			if ins.imms[0].kind == immLabels {
+				for _, l := range it.refs {
+					ins.imms[0].ls = append(ins.imms[0].ls, pos[l])
+				}
+			} else {
+				ins.imms[0].label = pos[it.refs[0]]
+			}
+		}
+		p.ins = append(p.ins, ins)
+	}
+	p.labs = p.refs()
+	return p
+}
+
+func vC33Cascades(r *vRand, v uint64) []*vC33Prog {
+	var out []*vC33Prog
+	if v < varintBranchVersion {
+		return out
+	}
+	for _, back := range []bool{false, true} {
+		for k := 1; k <= 6; k++ {
+			// 1 -> 2 byte boundary: exact (k sweeps), one beyond (no cascade), several chains
+			// in a row mixed with switch tables
+			out = append(out, vC33Cascade(r, v, k, 1, false, back, false, 0))
+			out = append(out, vC33Cascade(r, v, k, 1, false, back, false, 1))
+			out = append(out, vC33Cascade(r, v, k, 2+k%2, false, back, true, 0))
+			// 2 -> 3 byte boundary
+			if k != 5 {
+				out = append(out, vC33Cascade(r, v, k, 1, true, back, v == LogicVersion, 0))
+			}
+			if k == 3 && v == LogicVersion {
+				out = append(out, vC33Cascade(r, v, k, 1, true, back, false, 1))
+				out = append(out, vC33Cascade(r, v, k, 2, true, back, true, 0))
+			}
+		}
+	}
+	return out
+}
+
 func vC33RunA(out *vOut, st map[string]int, r *vRand, p *vC33Prog) {
 	text := p.text(r)
 	ver := uint64(assemblerNoVersion)
@@ -1063,6 +1226,14 @@ func TestVerifC33(t *testing.T) {
 		for _, p := range vC33Scenarios(r, v) {
 			vC33RunA(out, st, r, p)
 			st["a_scenario"]++
+		}
+	}
+	for v := uint64(0); v <= LogicVersion; v++ {
+		for _, p := range vC33Cascades(r, v) {
+			before := st["a_accepted"]
+			vC33RunA(out, st, r, p)
+			st["a_cascade"]++
+			st["a_cascade_accepted"] += st["a_accepted"] - before
 		}
 	}
 	for i := 0; i < nA; i++ {
